@@ -29,6 +29,7 @@ import (
 	codec "github.com/uhppoted/uhppote-core/encoding/UTO311-L0x"
 	"github.com/uhppoted/uhppote-core/messages"
 	"github.com/uhppoted/uhppote-core/types"
+	"verif/ops"
 	"verif/spec"
 	"verif/vk"
 )
@@ -121,6 +122,12 @@ func alphabet(t reflect.Type, small bool) []reflect.Value {
 		// and ordinary dates held in other Locations than the process zone
 		add(types.Date(time.Date(2024, 2, 29, 0, 0, 0, 0, time.FixedZone("-11", -11*3600))))
 		add(types.Date(time.Date(2024, 12, 31, 23, 0, 0, 0, time.FixedZone("+13", 13*3600))))
+		// dates that carry a time of day, around removed local midnights of the Location they are held in
+		if !small {
+			for _, t := range ops.DatesWithTimeOfDay() {
+				add(types.Date(t))
+			}
+		}
 	case tDateTime:
 		add(types.DateTime{})
 		for _, loc := range []*time.Location{time.UTC, time.FixedZone("-5", -5*3600), time.FixedZone("+14", 14*3600), time.Local} {
